@@ -153,5 +153,61 @@ def weight (t : Tree) : Nat := (t.edges.map (fun e => (inter e.1 e.2).length)).s
 def weightBound (attrs : List Attr) (nodes : List Clique) : Nat :=
   (attrs.map (fun a => (nodes.filter (fun n => n.contains a)).length - 1)).sum
 
+/-! ## `mp_order`: the dependency digraph handed to `nx.topological_sort` (junction_tree.py:23-34) -/
+
+abbrev Msg := Clique × Clique
+
+/-- `messages`: every tree edge in both directions -/
+def messages (t : Tree) : List Msg := t.edges ++ t.edges.map (fun e => (e.2, e.1))
+
+/-- the arcs `m1 → m2`: `m1` arrives where `m2` leaves, and `m2` does not go straight back -/
+def depEdges (t : Tree) : List (Msg × Msg) :=
+  (messages t).flatMap (fun m1 =>
+    ((messages t).filter (fun m2 => m1.2 == m2.1 && m1.1 != m2.2)).map (fun m2 => (m1, m2)))
+
+/-- the contract of `nx.topological_sort` on the digraph `(nodes, arcs)`: a listing of all nodes,
+each exactly once, in which every arc points forward -/
+def isTopoSort (nodes : List Msg) (arcs : List (Msg × Msg)) (order : List Msg) : Bool :=
+  nodup order && order.length == nodes.length && nodes.all (fun m => order.contains m) &&
+  arcs.all (fun a => order.idxOf a.1 < order.idxOf a.2)
+
+/-! ## `_greedy_order(stochastic=True)` and the integer mode of `_make_tree` -/
+
+/-- cost of eliminating `a`: size of the merged super-clique -/
+def elimCost (d : Dom) (cliques : List Clique) (a : Attr) : Nat :=
+  d.sizeOf ((cliques.filter (fun cl => cl.contains a)).foldl union [])
+
+/-- one clean-up step shared by both modes: remove the cliques containing `a`, add their union minus `a` -/
+def elimStep (cliques : List Clique) (a : Attr) : List Clique :=
+  let nb := cliques.filter (fun cl => cl.contains a)
+  let vars := (nb.foldl union []).filter (· != a)
+  let cliques' := cliques.filter (fun cl => !cl.contains a)
+  if cliques'.any (fun c => sameSet c vars) then cliques' else cliques' ++ [vars]
+
+/-- `_greedy_order(stochastic=True)`: which unmarked attribute is eliminated at each step is a random
+outcome — `picks` lists the indices `i` drawn by `np.random.choice(probas.size, p=probas)` (the costs
+only shape the distribution). Returns the order and the accumulated cost. A pick out of range ends
+the run (numpy never produces one). -/
+def greedyOrderPicks (d : Dom) : List Clique → List Attr → List Nat → List Attr × Nat
+  | _, [], _ => ([], 0)
+  | _, _ :: _, [] => ([], 0)
+  | cliques, unmarked@(_ :: _), i :: picks =>
+    match unmarked[i]? with
+    | none => ([], 0)
+    | some a =>
+      let r := greedyOrderPicks d (elimStep cliques a) (unmarked.filter (· != a)) picks
+      (a :: r.1, elimCost d cliques a + r.2)
+termination_by _ _ picks => picks.length
+
+/-- accumulated cost of the deterministic greedy order (second component of `_greedy_order(False)`) -/
+def greedyCost (d : Dom) : List Clique → List Attr → Nat
+  | _, [] => 0
+  | cliques, a :: rest => elimCost d cliques a + greedyCost d (elimStep cliques a) rest
+
+/-- `min(orders, key=cost)`: the first order of least cost -/
+def firstMin : List (List Attr × Nat) → Option (List Attr × Nat)
+  | [] => none
+  | o :: os => some (os.foldl (fun b x => if x.2 < b.2 then x else b) o)
+
 end JT
 end PGM
